@@ -1171,10 +1171,11 @@ class ManifestRecursiveLoader:
             path, verify_manifests=verify_manifests)
         entry_dict = self.get_deduplicated_file_entry_dict_for_update(
             path, verify_manifests=verify_manifests)
-        manifest_stack = []
-        for mpath, mrpath, m in (self._iter_manifests_for_path(path)):
-            manifest_stack.append((mpath, mrpath, m))
-            break
+        # all Manifests covering the path, from the top-level one down
+        # to the most specific one (the entries for newly found
+        # Manifests need to go into their parents)
+        manifest_stack = list(reversed(
+            self._iter_manifests_for_path(path)))
         directory_ids = {}
 
         it = os.walk(os.path.join(self.root_directory, path),
